@@ -198,12 +198,12 @@ func nameClassV(v ssa.Value, depth int, seen map[ssa.Value]bool) (string, bool, 
 
 // depExemptions: sinks that need no dependency although their name is not constant, keyed by (function, class), one reason each.
 var depExemptions = map[string]string{
-	"goose.Ctx.typeParamList|TypeIdent|ident-name":                      "type parameter binder: a definition site local to the function, not a reference to a global",
-	"goose.Ctx.coqTypeOfType|TypeIdent|type-object-name":                "name of a type parameter (case *types.TypeParam): bound by the enclosing definition",
-	"goose.Ctx.callExpr|StructToInterfaceDecl.Struct|unqualified-type-name":    "names the S__to__I conversion that stmtInterface emits in the same declaration group, immediately before the function",
-	"goose.Ctx.callExpr|StructToInterfaceDecl.Interface|unqualified-type-name": "names the S__to__I conversion that stmtInterface emits in the same declaration group, immediately before the function",
+	"goose.Ctx.typeParamList|TypeIdent|ident-name":                               "type parameter binder: a definition site local to the function, not a reference to a global",
+	"goose.Ctx.coqTypeOfType|TypeIdent|type-object-name":                         "name of a type parameter (case *types.TypeParam): bound by the enclosing definition",
+	"goose.Ctx.callExpr|StructToInterfaceDecl.Struct|unqualified-type-name":      "names the S__to__I conversion that stmtInterface emits in the same declaration group, immediately before the function",
+	"goose.Ctx.callExpr|StructToInterfaceDecl.Interface|unqualified-type-name":   "names the S__to__I conversion that stmtInterface emits in the same declaration group, immediately before the function",
 	"goose.Ctx.callExprInterface|StructToInterface.Struct|unqualified-type-name": "used only to spell the conversion's own name S__to__I and the method names S__m; the methods are recorded with addDep(MethodName(S, m)) (checked as R04a 'conversion methods')",
-	"goose.Ctx.packageMethod|GallinaIdent|ident-name":                   "the selector is one of the constant cases of the enclosing switch (UInt64Get, UInt64Put, UInt32Get, UInt32Put): a prelude name",
+	"goose.Ctx.packageMethod|GallinaIdent|ident-name":                            "the selector is one of the constant cases of the enclosing switch (UInt64Get, UInt64Put, UInt32Get, UInt32Put): a prelude name",
 }
 
 func checkC04(p *Prog, r *Report) {
